@@ -61,11 +61,11 @@ ISqrtProd(a, b) ==   \* floor-ish sqrt(a*b) for a < 2^14, b < 2^22
   LET sb == ShiftDown(b, 0)            \* b ~ sb[1] * 2^sb[2], sb[1] < 2^15
       ev == IF sb[2] % 2 = 0 THEN sb ELSE <<sb[1] \div 2, sb[2] + 1>>
   IN ISqrt(a * ev[1]) * (2 ^ (ev[2] \div 2))
+TauVX(P, st, c) ==
+  LET h == st.T.dep[c]  v == st.var[c]  nb == P.nb[h + 1] IN v + nb + ISqrtProd(v, v + 2 * nb)
 TauVEst(P, st, c, k) ==
   LET h  == st.T.dep[c]
-      v  == st.var[c]
-      nb == P.nb[h + 1]
-      X  == v + nb + ISqrtProd(v, v + 2 * nb)
+      X  == TauVX(P, st, c)
       sy == P.tauy[k + 1][h + 1]
       sx == ShiftDown(X, 0)
       m  == sx[1] * sy[1]                       \* X * (S Y) ~ m * 2^(sx[2] + sy[2]),  m < 2^30
@@ -73,9 +73,10 @@ TauVEst(P, st, c, k) ==
   IN IF e >= 0 THEN (IF e >= 20 THEN 1900000000 ELSE IF m >= 1900000000 \div (2 ^ e) THEN 1900000000 ELSE m * (2 ^ e))
      ELSE IF -e >= 31 THEN 1
      ELSE (m + (2 ^ (-e)) - 1) \div (2 ^ (-e))
-TauVClose(obs, est) ==
+\* X carries about +-2 units of quantisation (variance code, table entry, square root): relative 2/X on top of 1/64
+TauVClose(obs, est, X) ==
   IF est >= 1000000 THEN obs >= 500000
-  ELSE AbsI(obs - est) <= 2 + est \div 64
+  ELSE AbsI(obs - est) <= 2 + est \div 64 + (2 * est) \div MaxI(X, 1)
 
 \* threshold of a cell in epoch k
 TauOf(P, st, c, k) ==
